@@ -112,8 +112,7 @@ def compressDP (P : Params) (cap : Nat) (src : Array UInt8) (tableSize : Nat) (t
 /-- what `LZ4_compress_destSize_extState(state, src, dst, &srcSize, target, acceleration)` does on the fill-output path
     (`target < LZ4_compressBound(n)`): (bytes consumed, block); `none` = returns 0 -/
 def compressDestSize (src : Array UInt8) (acceleration : Int) (target : Nat) : Option (Nat × List UInt8) :=
-  let P := fastParams src acceleration 0 1
-  match compressDP { P with limit := none } target src (fastTableSize src) true with
+  match compressDP (fastParams src acceleration 0 1) target src (fastTableSize src) true with
   | none => none
   | some (l, anchor, lr) =>
     some (anchor + lr, LZ4V.Spec.Block.serialize (l.map (toSeq src)) (src.extract anchor (anchor + lr)).toList)
